@@ -2,7 +2,7 @@
    check executes), roots in any ordered *-field K that F maps into by a conj-compatible ring homomorphism phi
    that PRESERVES THE ORDER (nonneg a -> nonneg (phi a)).  Unlike the Yule-Walker case (Proofs/YuleExt.v), where
    positivity in K comes from a Gram form, here the positivity of the stage variances is a fact about the order
-   of F (it is what the code's "rho <= 0" test decided), so phi has to respect it.  Axiom-free. *)
+   of F (it is what the code's "rho <= 0" test decided), so phi has to respect it.  No axioms. *)
 Require Import Spectrum.Theory.Ops Spectrum.Theory.Sum Spectrum.Theory.Vec Spectrum.Theory.Order
                Spectrum.Model.Levinson Spectrum.Model.Burg
                Spectrum.Proofs.LevinsonTheory Spectrum.Proofs.YulePD Spectrum.Proofs.YuleExt
